@@ -694,6 +694,13 @@ Definition push (g : cfg) (pres : bool) (wd cwd : path) (s : store) (o : pushop)
   | PDirF how title ts es => push_dir g pres wd cwd s title ts es how
   end.
 
+(* Store.Exists(descriptor with title t and the digest of content c): the name is known (or
+   there is none) and the content is in digestToPath or in the fallback storage - the store's
+   book-keeping as an observable *)
+Definition exists_obs (s : store) (t : str) (c : N) : bool :=
+  (match t with [] => true | _ => existsb (str_eqb t) (st_names s) end) &&
+  (match lookup_d2p (st_d2p s) c with Some _ => true | None => existsb (str_eqb [0%N; c]) (st_names s) end).
+
 Fixpoint pushes (g : cfg) (pres : bool) (wd cwd : path) (s : store) (os : list pushop) : store * list bool :=
   match os with
   | [] => (s, [])
